@@ -103,7 +103,7 @@ Next == PubVsh \/ PubAsh \/ PubV \/ PubA \/ Join2 \/ End
 Spec == Init /\ [][Next]_mvars
 
 AllOk == \A c \in TsCons : cons[c].ok
-EndComplete == ended => \A c \in TsCons : EndOk(hist, cons[c])
+EndComplete == ended => (\A c \in TsCons : EndOk(hist, cons[c])) /\ StartsInTime(hist, cons["t1"])
 WitnessV == ~(ended /\ cons["t1"].vcur >= 2 /\ cons["t1"].acur >= 1 /\ cons["t2"].vcur >= 1 /\ cons["t2"].start > 3)
 EmitA == PrintT("@A@" \o ToJson([a |-> act, l |-> TLCGet("level")]))
 =============================================================================
